@@ -1,4 +1,5 @@
 import Driver.Mlw
+import Driver.Fmt
 import Std.Data.HashMap
 import Std.Data.HashSet
 /-!
@@ -25,17 +26,19 @@ structure DAcc where
   nontrivial : Nat := 0
   samples : Nat := 0
 
-def trivialTag (t : String) : Bool := t == "buffered" || t == "flush-empty"
+def trivialTag (t : String) : Bool := t == "buffered" || t == "flush-empty" || t == "plain-accepted"
 
-def dispatch (prop : String) (line : String) : MlwE.Verdict :=
+def dispatch (prop : String) (line : String) : Verdict :=
   match line.splitOn " => " with
   | [caseS, obsS] =>
     let f := caseS.splitOn " "
     match f.head? with
     | some "mlw" => MlwE.runMlw prop f obsS
     | some "spy" => MlwE.runSpy prop f obsS
-    | _ => ⟨false, "", "", none, [], true⟩
-  | _ => ⟨false, "", "", none, [], true⟩
+    | some "fmt" => FmtE.runFmt prop f obsS
+    | some "std" => FmtE.runStd prop f obsS
+    | _ => badCase
+  | _ => badCase
 
 partial def loop (prop : String) (h : IO.FS.Stream) (out : IO.FS.Stream) (a : DAcc) : IO DAcc := do
   let raw ← h.getLine
@@ -55,7 +58,7 @@ partial def loop (prop : String) (h : IO.FS.Stream) (out : IO.FS.Stream) (a : DA
       a := { a with dis := a.dis + 1 }
     match v.viol with
     | some e =>
-      out.putStrLn s!"P {n} {e.prop} {e.clause}"
+      out.putStrLn s!"P {n} {e.1} {e.2}"
       a := { a with pred := a.pred + 1 }
     | none => pure ()
     let mut tags := a.tags
